@@ -247,10 +247,11 @@ Bracket(ls) ==
 \* some live descriptor (the current one or one saved by an activation) writes /tmp/o
 Busy(S, f) == S.fd1 = f \/ \E j \in 1..Len(S.stk) : S.stk[j].sv.fd1 = f
 
-\* performs redirection r; res "ok" | "fail" | "open"
-Redirect(S, r) ==
+\* performs redirection r; res "ok" | "fail" | "open"; live: descriptors that are
+\* saved for later but not yet recorded in an activation
+Redirect(S, r, live) ==
   CASE r = "" -> [S |-> S, res |-> "ok"]
-    [] r = ">o" -> IF Busy(S, "o") THEN [S |-> S, res |-> "open"]
+    [] r = ">o" -> IF Busy(S, "o") \/ "o" \in live THEN [S |-> S, res |-> "open"]
                    ELSE [S |-> [S EXCEPT !.fo = <<>>, !.fd1 = "o"], res |-> "ok"]
     [] r = ">>p" -> [S |-> [S EXCEPT !.fd1 = "p"], res |-> "ok"]
     [] OTHER -> [S |-> S, res |-> "fail"]
@@ -327,7 +328,7 @@ DoCall(S, c) ==
      ELSE IF c.r = "<x" THEN [S EXCEPT !.st = NZ]     \* 2.8.1: shall not exit; the function is not run
      ELSE IF CallDepth(S) >= MaxDepth THEN Halt(S, "deep")
      ELSE
-     LET R1 == Redirect(S, c.r)
+     LET R1 == Redirect(S, c.r, {})
      IN IF R1.res = "open" THEN Halt(S, "open")
         ELSE
         LET S1 == [R1.S EXCEPT !.loc = Append(@, Frame(IF c.x = "" THEN "-" ELSE c.x)),
@@ -335,7 +336,7 @@ DoCall(S, c) ==
             body == IF fn.p = 1 THEN <<CSub(fn.b)>> ELSE fn.b
             act == Act("call", body, [pos |-> S.pos, fd1 |-> S.fd1, n |-> c.n, body |-> body])
             dr == IF Variant = "redir_at_def" THEN "" ELSE fn.r
-            R2 == Redirect(S1, dr)
+            R2 == Redirect(S1, dr, {S.fd1})
         IN CASE R2.res = "open" -> Halt(S, "open")
              [] R2.res = "fail" ->
                   \* redirection error on the compound command that is the body
